@@ -69,7 +69,7 @@ def floors(tier):
         f.update({'subcase:judged': 250, 'probe:strong': 180, 'build:make': 100,
                   'calibration:reference-build': 450,
                   'probe:pair-vs-reference': 50, 'multi:judged': 20,
-                  'mix:judged': 10, 'libvar:judged': 16, 'envdir:judged': 12, 'directed:judged': 4,
+                  'mix:judged': 10, 'libvar:judged': 16, 'envdir:judged': 24, 'directed:judged': 4,
                   'libvar:prebuilt-static-beside-shared': 4,
                   'mix:multi-then-single': 6,
                   'distinct_nontrivial': 180, 'lang:c': 120, 'lang:c++': 120})
@@ -1525,11 +1525,15 @@ ENVDIR = {
                                     ['-L@EXT@/elib', '-lvfe']),
     'libdir-also-in-LDFLAGS': ('libdir', {'LDFLAGS': '-L@EXT@/elib'},
                                ['-L@EXT@/elib', '-lvfe']),
+    # the linker chosen through LD: whatever bfg9000 derives from it belongs on link lines;
+    # a compile with warnings as errors must not see linker-only words
+    'inc-with-LD-bfd-and-Werror': ('incwerror', {'LD': 'ld.bfd'}, ['-I@EXT@/edir']),
+    'inc-with-LD-gold-and-Werror': ('incwerror', {'LD': 'ld.gold'}, ['-I@EXT@/edir']),
 }
 
 
 def gen_envdir(tier, seed):
-    compilers = ['gcc'] if tier == 'quick' else ['gcc', 'clang']
+    compilers = ['gcc', 'clang']        # (tiny projects: both compilers in quick, too)
     n = 0
     for compiler in compilers:
         for lang in ('c', 'c++'):
@@ -1563,7 +1567,7 @@ def run_envdir(case, res):
         files = {}
         edir = os.path.join(extdir, 'edir') if extdir != src else 'edir'
         elib = os.path.join(extdir, 'elib') if extdir != src else 'elib'
-        if kind in ('inc', 'sysinc'):
+        if kind in ('inc', 'sysinc', 'incwerror'):
             # a header that is fine, but not warning-free
             ext_files['edir/vfe.h'] = ('#define VFE_VALUE 41\n'
                                    'static int vfe_never_called(void) { return 1; }\n')
@@ -1572,6 +1576,11 @@ def run_envdir(case, res):
                                      'return 0; }\n' % t)
             if kind == 'sysinc':
                 kw = ("includes=[header_directory(%r, system=True)], "
+                      "compile_options=[opts.warning('all', 'error')]" % edir)
+                refc = ['-Wall', '-Werror']
+            elif kind == 'incwerror':
+                ext_files['edir/vfe.h'] = '#define VFE_VALUE 41\n'
+                kw = ("includes=[header_directory(%r)], "
                       "compile_options=[opts.warning('all', 'error')]" % edir)
                 refc = ['-Wall', '-Werror']
             else:
